@@ -59,4 +59,27 @@ def harnesses():
         add("nt_misc", "c20::nt_misc::<%d,%d>" % (b, l),
             ["CheckedDiv/CheckedRem/CheckedEuclid on zero divisor", "Integer::{is_multiple_of(0),is_even,is_odd,inc,dec}"],
             domain="FULL value", free_bits=b)
+    FWD = [("ruint::Uint::pow", "stubs::pow_mix"), ("ruint::Uint::inv_ring", "stubs::inv_ring_mix"),
+           ("ruint::Uint::gcd", "stubs::gcd_mix"), ("ruint::Uint::lcm", "stubs::lcm_mix"),
+           ("ruint::Uint::gcd_extended", "stubs::gcd_extended_mix")]
+    for b in GRID:
+        l, nb = nlimbs(b), nbytes(b)
+        tier = "quick" if b in QUICK else "thorough"
+        inst = "Uint<%d,%d>" % (b, l)
+        un = max(8 * l + 3, 6)
+        out.append(H("c20_nt_forward_%d" % b, "C20", "c20::nt_forward::<%d,%d>" % (b, l), unwind=un, tier=tier, inst=inst,
+                     stubs=FWD, abstract=True, timeout=900, free_bits=2 * b + 32,
+                     domain="FULL pairs, any u32 exponent; inherent pow/inv_ring/gcd/lcm/gcd_extended replaced by tagged mixing functions",
+                     fns=["Pow", "Inv", "PrimInt::pow", "Integer::{gcd,lcm,extended_gcd}"],
+                     covers_required=(["primint-pow", "lcm-some"] if b > 0 else [])))
+        if b > 0:
+            out.append(H("c20_nt_lcm_none_panics_%d" % b, "C20", "c20::nt_lcm_none_panics::<%d,%d>" % (b, l), unwind=un, tier=tier,
+                         inst=inst, stubs=FWD, abstract=True, timeout=900, free_bits=2 * b, kind="never_returns",
+                         domain="FULL pairs on which the (stubbed) inherent lcm is None", fns=["Integer::lcm"]))
+    for b in [8, 64, 72, 128, 256]:
+        l, nb = nlimbs(b), nbytes(b)
+        out.append(H("c20_nt_swap_bytes_%d" % b, "C20", "c20::nt_swap_bytes::<%d,%d,%d>" % (b, l, nb), unwind=max(nb, 8 * l) + 3,
+                     tier="quick" if b in (64, 72) else "thorough", inst="Uint<%d,%d>" % (b, l), timeout=900, free_bits=b + 8,
+                     domain="FULL value, one symbolic byte position (widths that are a multiple of 8)",
+                     fns=["PrimInt::{swap_bytes,to_be,from_be,to_le,from_le}"]))
     return out
